@@ -75,6 +75,14 @@ def mutators():
         sh.rebinding += 1
     M["parameters=dict"] = set_params_dict
 
+    # the parameter list extended by assigning the OLD names plus the new one (m.param_list = m.param_list + ['k'])
+    def add_param_redeclare(m, sh):
+        m.param_list = [str(p_) for p_ in m.param_list] + ["k"]
+        sh.params.append("k")
+        m.add_event(Event(rate="k*S", transition_list=[Transition(origin="S", transition_type="D")]))
+        sh.events.append(expr.Ev(V("k") * V("S"), [expr.Tr("D", origin="S")]))
+    M["add_param(old names + new)+event"] = add_param_redeclare
+
     # definition changes that leave the ODE right-hand side untouched (a declared but still unused quantity)
     def add_param_only(m, sh):
         m.param_list = ["k"]
@@ -150,7 +158,7 @@ def history_unit(hists, idx):
                             getattr(m, f)(x, t)
                         except Exception:
                             pass
-                if mu in ("parameters=", "add_param+event", "add_param_only"):
+                if mu in ("parameters=", "add_param+event", "add_param_only", "add_param(old names + new)+event"):
                     rebind(k + 1)
                 if mu == "parameters=dict":
                     rebind(k + 1, partial_dict=True)
@@ -216,7 +224,7 @@ def histories(tier):
             if tier != "quick":
                 H.append((tuple(EVALS), (mu,), (), tuple(EVALS), True))
     # two mutators that declare the same new name cannot be combined in one history
-    clash = [{"add_param+event", "add_param_only"}, {"add_derived+event", "add_derived_only"}, {"add_derived+event", "redefine_derived"}, {"add_derived_only", "redefine_derived"}]
+    clash = [{"add_param+event", "add_param_only"}, {"add_param+event", "add_param(old names + new)+event"}, {"add_param_only", "add_param(old names + new)+event"}, {"add_derived+event", "add_derived_only"}, {"add_derived+event", "redefine_derived"}, {"add_derived_only", "redefine_derived"}]
     pairs = [(a, b) for a in ms for b in ms if a != b and {a, b} not in clash]
     if tier == "quick":
         pairs = pairs[::5]
